@@ -38,6 +38,7 @@ func init() {
 			{"C14.R3", "q", "shared: seek/offset pairing of the stream and hint readers", c14r3},
 			{"C06.R8", "q", "shared: a fatal log line stops the process", c06r8},
 			{"C18.R6", "q", "shared: hint files of a chunk removed by glob", c18r6},
+			{"C02.R10", "q", "identity-carrying constructors and the start-up index file list", c02r10},
 		},
 	})
 }
